@@ -182,9 +182,16 @@ type c06ReadCase struct {
 	RR                bool
 	Entry             string
 	R                 int
+	// Three: the partition has two previous owners (it moved at two successive joins); Prev0 is the
+	// copy on the older one, Prev the copy on the more recent one.
+	Three bool
+	Prev0 int
 }
 
 func (c c06ReadCase) String() string {
+	if c.Three {
+		return fmt.Sprintf("copies{own:%d older-prev-owner:%d recent-prev-owner:%d backup1:%d backup2:%d} read-repair=%v entry=%s R=%d", c.Own, c.Prev0, c.Prev, c.B1, c.B2, c.RR, c.Entry, c.R)
+	}
 	return fmt.Sprintf("copies{own:%d prev-owner:%d backup1:%d backup2:%d} read-repair=%v entry=%s R=%d", c.Own, c.Prev, c.B1, c.B2, c.RR, c.Entry, c.R)
 }
 
@@ -199,11 +206,24 @@ func c06ReadCases(tier string) []c06ReadCase {
 							if own+prev+b1+b2 == 0 {
 								continue
 							}
-							out = append(out, c06ReadCase{own, prev, b1, b2, rr, e, 3})
+							out = append(out, c06ReadCase{Own: own, Prev: prev, B1: b1, B2: b2, RR: rr, Entry: e, R: 3})
 						}
 					}
 					if own+prev != 0 {
-						out = append(out, c06ReadCase{own, prev, 0, 0, rr, e, 1})
+						out = append(out, c06ReadCase{Own: own, Prev: prev, RR: rr, Entry: e, R: 1})
+					}
+					// two previous owners: all layouts over {owner, older, recent} at R=1, and with the
+					// backups at R=3 (thorough: every backup layout; quick: backups absent or equal)
+					for p0 := 1; p0 <= 3; p0++ {
+						out = append(out, c06ReadCase{Own: own, Prev: prev, Prev0: p0, Three: true, RR: rr, Entry: e, R: 1})
+						for b1 := 0; b1 <= 3; b1++ {
+							for b2 := 0; b2 <= 3; b2++ {
+								if tier != "thorough" && b1 != b2 {
+									continue
+								}
+								out = append(out, c06ReadCase{Own: own, Prev: prev, Prev0: p0, Three: true, B1: b1, B2: b2, RR: rr, Entry: e, R: 3})
+							}
+						}
 					}
 				}
 			}
@@ -215,15 +235,10 @@ func c06ReadCases(tier string) []c06ReadCase {
 func c06RunRead(cs c06ReadCase) (string, string) {
 	sched.ResetClock()
 	cl := simcluster.New(simcluster.Opts{N: 2, Replicas: cs.R, WriteQ: 1, ReadQ: 1, Partitions: 7, ReadRepair: cs.RR})
-	// find a key whose partition will move to the joining member while its old owner keeps data
-	type cand struct {
-		key  string
-		from *simcluster.Member
-	}
-	var keys []cand
-	for i := 0; i < 40; i++ {
-		k := fmt.Sprintf("k%d", i)
-		keys = append(keys, cand{k, cl.Owner(cl.Members[0], "d", k)})
+	// find a key whose partition moves to the joining member(s) while its old owner(s) keep data
+	var keys []string
+	for i := 0; i < 60; i++ {
+		keys = append(keys, fmt.Sprintf("k%d", i))
 	}
 	mk := func(key string, ts int) storage.Entry {
 		e := entry.New()
@@ -232,41 +247,50 @@ func c06RunRead(cs c06ReadCase) (string, string) {
 		e.SetTimestamp(int64(ts))
 		return e
 	}
-	// every candidate's old owner holds a filler in the candidate's partition so that it stays listed
-	for _, c := range keys {
-		c.from.DB.VerifDMap().VerifInject(partitions.PRIMARY, "d", partitions.HKey("d", c.key), mk(c.key, 1))
+	// the current owner of every candidate's partition holds a filler so that it stays listed when
+	// the partition moves on
+	fill := func() {
+		for _, k := range keys {
+			cl.Owner(cl.Members[0], "d", k).DB.VerifDMap().VerifInject(partitions.PRIMARY, "d", partitions.HKey("d", k), mk(k, 1))
+		}
 	}
-	joiner, err := cl.StartMember(2)
-	if err != nil {
-		return "setup", err.Error()
+	fill()
+	joins := 1
+	if cs.Three {
+		joins = 2
 	}
-	cl.DeliverAll()
-	cl.Push()
+	for j := 0; j < joins; j++ {
+		if _, err := cl.StartMember(2 + j); err != nil {
+			return "setup", err.Error()
+		}
+		cl.DeliverAll()
+		cl.Push()
+		if j+1 < joins {
+			fill()
+		}
+	}
 	var key string
-	var prev *simcluster.Member
-	for _, c := range keys {
-		if cl.Owner(cl.Members[0], "d", c.key) == joiner {
-			owners := cl.Members[0].DB.VerifRT().VerifTable()[cl.PartID("d", c.key)].Owners
-			if len(owners) == 2 && owners[0].Name == c.from.Name {
-				key, prev = c.key, c.from
-				break
+	var chain []*simcluster.Member // owners list of the partition, oldest first, current owner last
+	for _, k := range keys {
+		owners := cl.Members[0].DB.VerifRT().VerifTable()[cl.PartID("d", k)].Owners
+		if len(owners) == joins+1 {
+			key = k
+			for _, o := range owners {
+				chain = append(chain, cl.ByName(o.Name))
 			}
+			break
 		}
 	}
 	if key == "" {
-		return "setup", "no candidate partition moved to the joiner with its previous owner still listed"
+		return "setup", fmt.Sprintf("no candidate partition with %d listed owners after %d join(s)", joins+1, joins)
 	}
+	joiner := chain[len(chain)-1]
+	prev := chain[len(chain)-2]
 	hk := partitions.HKey("d", key)
-	part := cl.PartID("d", key)
-	// remove the fillers of this partition except on prev (another key keeps prev listed and non-empty)
-	filler := ""
-	for _, c := range keys {
-		if c.key != key && cl.PartID("d", c.key) == part && c.from == prev {
-			filler = c.key
-		}
+	// the fillers of this very key go away (other keys keep the previous owners listed and non-empty)
+	for _, m := range chain {
+		m.DB.VerifDMap().VerifRemove(partitions.PRIMARY, "d", hk)
 	}
-	prev.DB.VerifDMap().VerifRemove(partitions.PRIMARY, "d", hk)
-	_ = filler
 	backups := cl.Backups(cl.Members[0], "d", key)
 	if cs.R == 3 && len(backups) != 2 {
 		return "setup", fmt.Sprintf("expected 2 backup owners, got %d", len(backups))
@@ -280,12 +304,15 @@ func c06RunRead(cs c06ReadCase) (string, string) {
 	}
 	place(joiner, partitions.PRIMARY, cs.Own)
 	place(prev, partitions.PRIMARY, cs.Prev)
+	if cs.Three {
+		place(chain[0], partitions.PRIMARY, cs.Prev0)
+	}
 	if cs.R == 3 {
 		place(backups[0], partitions.BACKUP, cs.B1)
 		place(backups[1], partitions.BACKUP, cs.B2)
 	}
 	max := cs.Own
-	for _, t := range []int{cs.Prev, cs.B1, cs.B2} {
+	for _, t := range []int{cs.Prev, cs.Prev0, cs.B1, cs.B2} {
 		if t > max {
 			max = t
 		}
@@ -296,6 +323,9 @@ func c06RunRead(cs c06ReadCase) (string, string) {
 	}
 	r := kv.Get(key)
 	sig := fmt.Sprintf("entry=%s/rr=%v", cs.Entry, cs.RR)
+	if cs.Three {
+		sig += "/two-previous-owners"
+	}
 	if r.Err != "" {
 		return "read/failed/" + sig, fmt.Sprintf("Get failed with %q although a copy exists", r.Err)
 	}
@@ -410,6 +440,6 @@ func init() {
 		c.Cov["read_cases"] = len(reads)
 		c.Cov["exhaustive"] = true
 		c.Cov["traces_validated_against_impl"] = 0
-		c.Cov["rule"] = "merge: every target content x every sequence (with repetition) of fragment deliveries up to the length bound, fragments being real exported kvstore tables over keys {a,b} with timestamps {1,2,2-tie,3}, delivered through the real move-fragment handler; read: every layout of copies over {owner, previous owner, backup 1, backup 2} x timestamps {absent,1,2,3} x read-repair on/off x entry point, one Get on a real cluster whose partition was made fragmented by a join"
+		c.Cov["rule"] = "merge: every target content x every sequence (with repetition) of fragment deliveries up to the length bound, fragments being real exported kvstore tables over keys {a,b} with timestamps {1,2,2-tie,3}, delivered through the real move-fragment handler; read: every layout of copies over {owner, previous owner, backup 1, backup 2} x timestamps {absent,1,2,3}, and over {owner, older previous owner, more recent previous owner, backups} for a partition that moved at two successive joins (three listed owners) x read-repair on/off x entry point, one Get on a real cluster whose partition was made fragmented by a join"
 	}})
 }
